@@ -785,7 +785,7 @@ class Quaternion(SMUserList):
         """
         # results is not in the group, return an array, not a class
         # TODO allow class +/- a conformant array
-        assert isinstance(left, type(right)), 'operands to - are of different types'
+        assert isinstance(left, type(right)) or isinstance(right, type(left)), 'operands to - are of different types'
         return Quaternion(left.binop(right, lambda x, y: x - y))
 
     def __neg__(self):
